@@ -112,7 +112,8 @@ struct Scenario {
 				st->Read(got.data(), got.size());
 				if (got != audio) { bad("stream-bytes", key, name + " " + std::to_string(got.size()) + " bytes"); ok = false; return; }
 				for (int how = 0; how < 2; ++how) {
-					std::string out = how == 0 ? "xall/" + name : "x_" + name + ".wav";
+					// the statement does not say how the bulk extraction names its files: the member name, or the member name with .wav
+					std::string out = how == 0 ? (::access(("xall/" + name + ".wav").c_str(), F_OK) == 0 ? "xall/" + name + ".wav" : "xall/" + name) : "x_" + name + ".wav";
 					if (how == 1) c.ExtractFile(i, out);
 					auto w = ref::parseCanonicalWav(mc::readFile(out));
 					if (!w.ok) { bad("extracted-wav-not-self-consistent", key, name + ": " + w.why); ok = false; return; }
